@@ -178,4 +178,24 @@ theorem size_reshape (s : Shape) (t : List Int) (r : Shape) (h : reshape s t = .
           · cases h
       · simp [k1] at h
 
+theorem length_reshape (s : Shape) (t : List Int) (r : Shape) (h : reshape s t = .ok r) :
+    r.length = t.length := by
+  unfold reshape at h
+  split at h
+  · cases h
+  · rcases hk : reshapeKnown t with ⟨p, k⟩
+    rw [hk] at h
+    simp only at h
+    repeat' split at h
+    all_goals first | (cases h; done) | (cases h; exact List.length_map _)
+
+/-- indexing with one in-range integer removes the first dimension -/
+theorem index_single_int (d : Nat) (s : Shape) (i : Int) (h : intInRange d i = true) :
+    index (d :: s) [.int i] = .ok s := by
+  simp [index, consumedTotal, Ix.consumed, Ix.isEllipsis, Ix.isAdvanced, walk, h,
+        IxAcc.pushBasic, IxAcc.result]
+
+theorem intInRange_ofNat (d i : Nat) (h : i < d) : intInRange d (Int.ofNat i) = true := by
+  simp [intInRange]; omega
+
 end Unyt.Shape
